@@ -42,8 +42,9 @@ Definition sifting_ok' : Prop := ∀ s L r s',
   Inv s → Counts s L → last_len s = None →
   reorder None s = (r, s') →
   r = Err EOracle ∨
-  (r = Ok tt ∧ Inv s' ∧ Counts s' L ∧ last_len s' = None ∧ rctx s' = rctx s ∧
-   keeps (heldn L) s s').
+  ((r = Ok tt ∨ (r = Err ERuntime ∧ is_Some (max_nodes s))) ∧
+   Inv s' ∧ Counts s' L ∧ last_len s' = None ∧ rctx s' = rctx s ∧
+   max_nodes s' = max_nodes s ∧ keeps (heldn L) s s').
 
 (** the same with "reachable from a held node" in place of "held": FALSE of
     the model ([sifting_ok_reach_false] at the end of this file) *)
@@ -51,8 +52,9 @@ Definition sifting_ok_reach : Prop := ∀ s L r s',
   Inv s → Counts s L → last_len s = None →
   reorder None s = (r, s') →
   r = Err EOracle ∨
-  (r = Ok tt ∧ Inv s' ∧ Counts s' L ∧ last_len s' = None ∧ rctx s' = rctx s ∧
-   keeps (ref_by L s) s s').
+  ((r = Ok tt ∨ (r = Err ERuntime ∧ is_Some (max_nodes s))) ∧
+   Inv s' ∧ Counts s' L ∧ last_len s' = None ∧ rctx s' = rctx s ∧
+   max_nodes s' = max_nodes s ∧ keeps (ref_by L s) s s').
 
 (** ** Specification of a wrapped operation, by name *)
 Record op_spec {A} (func : MS A) (K : positive → Prop)
@@ -64,7 +66,7 @@ Record op_spec {A} (func : MS A) (K : positive → Prop)
     Inv s' ∧ extends s s' ∧ frame s s' ∧ (∀ L, Counts s L → Counts s' L) ∧
     match r with
     | Ok a => Post s a s'
-    | Err e => e = ENeedsReordering ∧ is_Some (last_len s)
+    | Err e => benign s e
     end;
   (* [Pre] and [Post] speak about functions by name, so they survive a
      reordering that keeps the nodes of [K] *)
@@ -76,14 +78,14 @@ Record op_spec {A} (func : MS A) (K : positive → Prop)
 
 (** the two readings of [spec_run] *)
 Lemma spec_off {A} (func : MS A) K Pre Post : op_spec func K Pre Post →
-  ∀ s r s', Inv s → Pre s → last_len s = None → func s = (r, s') →
+  ∀ s r s', Inv s → Pre s → last_len s = None → max_nodes s = None → func s = (r, s') →
   ∃ a, r = Ok a ∧ Inv s' ∧ extends s s' ∧ frame s s' ∧
        (∀ L, Counts s L → Counts s' L) ∧ Post s a s'.
 Proof.
-  intros H s r s' HI HP Hoff Hrun.
+  intros H s r s' HI HP Hoff Hmx Hrun.
   destruct (spec_run _ _ _ _ H s r s' HI HP (or_intror Hoff) Hrun) as (?&?&?&?&Hr).
   destruct r as [a|e]; [by exists a|].
-  destruct Hr as [_ [l Hl]]. congruence.
+  by destruct (benign_never s e Hoff Hmx).
 Qed.
 
 Lemma spec_on {A} (func : MS A) K Pre Post : op_spec func K Pre Post →
@@ -91,7 +93,7 @@ Lemma spec_on {A} (func : MS A) K Pre Post : op_spec func K Pre Post →
   Inv s' ∧ extends s s' ∧ frame s s' ∧ (∀ L, Counts s L → Counts s' L) ∧
   match r with
   | Ok a => Post s a s'
-  | Err e => e = ENeedsReordering ∧ is_Some (last_len s)
+  | Err e => benign s e
   end.
 Proof. intros H s r s' HI HP Hc. apply (spec_run _ _ _ _ H); try done. by left. Qed.
 
@@ -102,7 +104,7 @@ Lemma op_spec_unfold {A} (func : MS A) K Pre Post :
     Inv s' ∧ extends s s' ∧ frame s s' ∧ (∀ L, Counts s L → Counts s' L) ∧
     match r with
     | Ok a => Post s a s'
-    | Err e => e = ENeedsReordering ∧ is_Some (last_len s)
+    | Err e => benign s e
     end) ∧
   (∀ s s', Inv s → Inv s' → keeps K s s' → Pre s → Pre s') ∧
   (∀ s0 s a s', Inv s0 → Inv s → keeps K s0 s → Pre s0 → Post s a s' → Post s0 a s') ∧
@@ -185,11 +187,14 @@ Proof.
   split; [done|]. intros u _ _ Hv. split; [done|]. intros ρ. by apply denv_same.
 Qed.
 
+Lemma catch_run {A} (m : MS A) s r s' : m s = (r, s') → catch m s = (Ok r, s').
+Proof. unfold catch. by intros ->. Qed.
+
 (** ** The decorator *)
 Theorem try_to_reorder_correct {A} (func : MS A) Pre Post s L r s' :
   sifting_ok' →
   op_spec func (heldn L) Pre Post →
-  Inv s → Counts s L → Pre s → rctx s = false →
+  Inv s → Counts s L → Pre s → rctx s = false → max_nodes s = None →
   try_to_reorder func s = (r, s') →
   r = Err EOracle ∨
   ∃ a, r = Ok a ∧ Inv s' ∧ Counts s' L ∧ rctx s' = false ∧
@@ -197,7 +202,7 @@ Theorem try_to_reorder_correct {A} (func : MS A) Pre Post s L r s' :
        (is_Some (last_len s) → is_Some (last_len s')) ∧
        keeps (heldn L) s s' ∧ Post s a s'.
 Proof.
-  intros Hsift Hop HI HC HP Hctx.
+  intros Hsift Hop HI HC HP Hctx Hmx.
   set (K := heldn L) in *.
   unfold try_to_reorder. cbn [bind get modify]. unfold bind at 1, catch at 1.
   set (s0 := s <| rctx := true |>).
@@ -210,6 +215,7 @@ Proof.
   pose proof (HCs1 L HC0) as HC1.
   assert (He01 : extends s s1) by done.
   assert (Hll1 : last_len s1 = last_len s) by (by destruct Hf1 as (?&_)).
+  assert (Hmx1 : max_nodes s1 = None) by (by rewrite (frame_max_nodes _ _ Hf1)).
   cbn [bind modify]. rewrite Hctx.
   destruct r1 as [a|e].
   { (* the request did not fire *)
@@ -222,8 +228,9 @@ Proof.
     - apply (post_same _ _ _ _ Hop s a s1); [done|].
       by apply (post_stable _ _ _ _ Hop s s0 a s1). }
   (* the request fired at nesting depth 0 *)
+  apply (benign_unbounded s0 e Hmx) in Hr1.
   destruct Hr1 as [-> Hon]. change (last_len s0) with (last_len s) in Hon.
-  rewrite decide_True by done. cbn [bind modify].
+  rewrite decide_True by done. cbn [bind get modify].
   set (s2 := s1 <| rctx := false |> <| last_len := None |>).
   assert (Hsame2 : same_tables s1 s2) by (by repeat split).
   assert (HI2 : Inv s2) by (by apply (Inv_same s1)).
@@ -232,9 +239,11 @@ Proof.
   assert (Hk2 : keeps K s s2) by (by apply keeps_extends).
   destruct (reorder None s2) as [r3 s3] eqn:E3.
   destruct (Hsift s2 L r3 s3 HI2 HC2 eq_refl E3)
-    as [->|(->&HI3&HC3&Hll3&Hr3&Hk3)].
-  { rewrite (bind_err _ _ _ _ _ E3). intros [= <- <-]. by left. }
-  rewrite (bind_ok _ _ _ _ _ E3). cbn [bind get modify].
+    as [->|([->|(_&[n Hn])]&HI3&HC3&Hll3&Hr3&Hmx3&Hk3)]; [|..|change (max_nodes s2) with (max_nodes s1) in Hn; congruence].
+  { rewrite (bind_ok _ _ _ _ _ (catch_run _ _ _ _ E3)). cbn [bind modify raise].
+    intros [= <- <-]. by left. }
+  change (max_nodes s2) with (max_nodes s1) in Hmx3. rewrite Hmx1 in Hmx3.
+  rewrite (bind_ok _ _ _ _ _ (catch_run _ _ _ _ E3)). cbn [bind ret get modify].
   unfold bind at 1, catch at 1.
   set (s3' := s3 <| rctx := true |>).
   assert (HI3' : Inv s3') by (by apply Inv_rctx).
@@ -249,7 +258,7 @@ Proof.
   cbn [bind modify].
   destruct r4 as [a|e]; cycle 1.
   { (* requests are off: no signal in the second attempt *)
-    destruct Hr4 as [_ [l Hl]]. change (last_len s3') with (last_len s3) in Hl. congruence. }
+    by destruct (benign_never s3' e Hll3 Hmx3). }
   cbn [reraise bind ret modify]. unfold ret. intros [= <- <-]. right. exists a.
   set (sF := s4 <| rctx := rctx s3 |> <| last_len := _ |>).
   assert (HsameF : same_tables s4 sF) by (by repeat split).
@@ -268,12 +277,12 @@ Qed.
 Corollary try_to_reorder_no_signal {A} (func : MS A) Pre Post s L r s' :
   sifting_ok' →
   op_spec func (heldn L) Pre Post →
-  Inv s → Counts s L → Pre s → rctx s = false →
+  Inv s → Counts s L → Pre s → rctx s = false → max_nodes s = None →
   try_to_reorder func s = (r, s') →
   r ≠ Err ENeedsReordering.
 Proof.
-  intros Hs Hop HI HC HP Hc Hrun.
-  destruct (try_to_reorder_correct func Pre Post s L r s' Hs Hop HI HC HP Hc Hrun)
+  intros Hs Hop HI HC HP Hc Hmx Hrun.
+  destruct (try_to_reorder_correct func Pre Post s L r s' Hs Hop HI HC HP Hc Hmx Hrun)
     as [->|(a&->&_)]; done.
 Qed.
 
@@ -312,7 +321,7 @@ Qed.
     creation the request fires at *)
 Theorem ite_dynamic s L g u v r s' :
   sifting_ok' →
-  Inv s → Counts s L → rctx s = false →
+  Inv s → Counts s L → rctx s = false → max_nodes s = None →
   valid s g → valid s u → valid s v →
   heldn L (absn g) → heldn L (absn u) → heldn L (absn v) →
   ite g u v s = (r, s') →
@@ -324,7 +333,7 @@ Theorem ite_dynamic s L g u v r s' :
        valid s' w ∧
        ∀ ρ, denv s' w ρ = if denv s g ρ then denv s u ρ else denv s v ρ.
 Proof.
-  intros Hs HI HC Hc Hg Hu Hv Kg Ku Kv Hrun. unfold ite in Hrun.
+  intros Hs HI HC Hc Hmx Hg Hu Hv Kg Ku Kv Hrun. unfold ite in Hrun.
   destruct (try_to_reorder_correct (ite_ g u v) (ite_pre g u v) (ite_post g u v)
               s L r s' Hs (ite_op_spec _ g u v Kg Ku Kv) HI HC) as [?|(w&?&?&?&?&?&?&?&?&?)];
     try done; [by left|right]. by exists w.
@@ -355,7 +364,7 @@ Proof.
        |by rewrite (lvl_term s HI (-1))|by rewrite (lvl_term s HI 1)].
     split; [done|split; [done|split; [done|split]]].
     + intros L HC. by apply (find_or_add_counts s L j (-1) 1 r s').
-    + destruct r as [w|e]; [|by destruct Hr as (?&?&_)].
+    + destruct r as [w|e]; [|by destruct Hr as (?&_)].
       destruct Hr as (Hw&_&HD). split; [done|].
       intros ρ. unfold denv. rewrite HD, (D_1 s HI), (D_m1 s HI).
       destruct He as (_&_&El). rewrite <- El, Hl. by destruct (ρ name).
@@ -368,7 +377,7 @@ Qed.
 
 Theorem var_dynamic s L name r s' :
   sifting_ok' →
-  Inv s → Counts s L → rctx s = false →
+  Inv s → Counts s L → rctx s = false → max_nodes s = None →
   is_Some (vars s !! name) →
   var name s = (r, s') →
   r = Err EOracle ∨
@@ -378,7 +387,7 @@ Theorem var_dynamic s L name r s' :
        keeps (heldn L) s s' ∧
        valid s' w ∧ ∀ ρ, denv s' w ρ = ρ name.
 Proof.
-  intros Hs HI HC Hc Hn Hrun. change (var name) with (try_to_reorder (var_body name)) in Hrun.
+  intros Hs HI HC Hc Hmx Hn Hrun. change (var name) with (try_to_reorder (var_body name)) in Hrun.
   destruct (try_to_reorder_correct (var_body name) (var_pre name) (var_post name)
               s L r s' Hs (var_op_spec _ name) HI HC) as [?|(w&?&?&?&?&?&?&?&?&?)];
     try done; [by left|right]. by exists w.
@@ -427,7 +436,7 @@ Proof.
   pose proof (ite_rec_spec _ s0 g u v r1 s1 HI0 Hg Hu Hv Hfu Hrun) as (HI1&He1&Hf1&Hr).
   pose proof (ite_rec_counts _ s0 L g u v r1 s1 HI0 HC0 Hg Hu Hv Hfu Hrun) as HC1.
   destruct Hcase as [[-> Hctx]|[-> ->]].
-  - destruct Hr as [_ [l Hl]]. destruct Hnr as [?|Hn]; [congruence|].
+  - destruct Hr as [[_ [l Hl]]|[[=] _]]. destruct Hnr as [?|Hn]; [congruence|].
     change (last_len s0) with (last_len s) in Hl. congruence.
   - by apply (Counts_same s1).
 Qed.
@@ -610,7 +619,7 @@ Proof.
         try first [done | apply ord_ok_sorted_levels | apply cache_ok_empty | lia]. }
     destruct rr as [[x c]|e]; cycle 1.
     { rewrite (bind_err _ _ _ _ _ Er) in Hrun. injection Hrun as <- <-.
-      destruct Hr as [-> ?]. by split_and!. }
+      by split_and!. }
     rewrite (bind_ok _ _ _ _ _ Er) in Hrun. cbn [ret fst] in Hrun. injection Hrun as <- <-.
     destruct Hr as (Hxv&_&_&HxD).
     split; [done|split; [done|split; [done|split; [done|]]]]. split; [done|].
@@ -631,7 +640,7 @@ Qed.
 
 Theorem quantify_dynamic s L u qvars fa r s' :
   sifting_ok' →
-  Inv s → Counts s L → rctx s = false →
+  Inv s → Counts s L → rctx s = false → max_nodes s = None →
   valid s u → heldn L (absn u) →
   Forall (fun k => is_Some (vars s !! k)) qvars →
   quantify u true qvars fa s = (r, s') →
@@ -643,7 +652,7 @@ Theorem quantify_dynamic s L u qvars fa r s' :
        valid s' x ∧
        ∀ ρ, denv s' x ρ = true ↔ qsemv s fa (list_to_set qvars) u ρ.
 Proof.
-  intros Hs HI HC Hc Hu Ku HF Hrun.
+  intros Hs HI HC Hc Hmx Hu Ku HF Hrun.
   change (quantify u true qvars fa) with (try_to_reorder (quant_body u qvars fa)) in Hrun.
   destruct (try_to_reorder_correct (quant_body u qvars fa) (quant_pre u qvars)
               (quant_post u qvars fa) s L r s' Hs (quant_op_spec _ u qvars fa Ku) HI HC)
@@ -694,7 +703,7 @@ Proof. vm_compute. by split_and!. Qed.
 
 (** ** Keys given as LEVELS.
     [quantify] (like [cofactor]) accepts levels instead of names
-    ([_map_to_level]).  Before dd commit a1c66f6 the decorated method mapped
+    ([_map_to_level]).  Before dd commit 827d7f0 the decorated method mapped
     the same integers a second time, under the new order, and another variable
     was quantified ([\E level 0. f] was [\E v0. f] without the request and
     [\E v2. f] with it).  Now the public method turns the levels into names
@@ -883,7 +892,7 @@ Proof.
                             (Cofactor.cache_ok_empty s lv) Hfu Er). }
     destruct rr as [[x c]|e]; cycle 1.
     { rewrite (bind_err _ _ _ _ _ Er) in Hrun. injection Hrun as <- <-.
-      destruct Hr as [-> ?]. by split_and!. }
+      by split_and!. }
     rewrite (bind_ok _ _ _ _ _ Er) in Hrun. cbn [ret fst] in Hrun. injection Hrun as <- <-.
     destruct Hr as (Hxv&_&_&HxD).
     split; [done|split; [done|split; [done|split; [done|]]]]. split; [done|].
@@ -905,7 +914,7 @@ Qed.
 
 Theorem cofactor_dynamic s L u values r s' :
   sifting_ok' →
-  Inv s → Counts s L → rctx s = false →
+  Inv s → Counts s L → rctx s = false → max_nodes s = None →
   valid s u → heldn L (absn u) →
   Forall (fun p => is_Some (vars s !! p.1)) values →
   cofactor u true values s = (r, s') →
@@ -917,7 +926,7 @@ Theorem cofactor_dynamic s L u values r s' :
        valid s' x ∧
        ∀ ρ, denv s' x ρ = denv s u (overridev (list_to_map (reverse values)) ρ).
 Proof.
-  intros Hs HI HC Hc Hu Ku HF Hrun.
+  intros Hs HI HC Hc Hmx Hu Ku HF Hrun.
   change (cofactor u true values) with (try_to_reorder (cof_body u values)) in Hrun.
   destruct (try_to_reorder_correct (cof_body u values) (cof_pre u values)
               (cof_post u values) s L r s' Hs (cof_op_spec _ u values Ku) HI HC)
@@ -946,7 +955,7 @@ Qed.
 
 Theorem apply_with_dynamic tbl op u v w s L t r s' :
   sifting_ok' →
-  Inv s → Counts s L → rctx s = false →
+  Inv s → Counts s L → rctx s = false → max_nodes s = None →
   valid s u → ovalid s v → ovalid s w →
   heldn L (absn u) → oref L v → oref L w →
   arity_ok op v w = true →
@@ -962,7 +971,7 @@ Theorem apply_with_dynamic tbl op u v w s L t r s' :
        ∀ ρ, Some (denv s' x ρ) =
             template_sem t (denv s u ρ) (denv s (default 0%Z v) ρ) (denv s (default 0%Z w) ρ).
 Proof.
-  intros Hs HI HC Hc Hu Hv Hw Ku Kv Kw Har Hft Hav Hnq. unfold apply_with, ensure.
+  intros Hs HI HC Hc Hmx Hu Hv Hw Ku Kv Kw Har Hft Hav Hnq. unfold apply_with, ensure.
   rewrite Har. rewrite (bind_ok _ _ s tt s) by done. cbn [bind get].
   rewrite (proj2 (mem_valid s u) Hu). rewrite (bind_ok _ _ s tt s) by done.
   assert (Hmv : match v with Some v => mem v s | None => true end = true).
@@ -990,7 +999,7 @@ Qed.
 
 Theorem apply_dynamic s L op u v w r s' f :
   sifting_ok' →
-  Inv s → Counts s L → rctx s = false →
+  Inv s → Counts s L → rctx s = false → max_nodes s = None →
   op ∈ py_vocab → conn_sem op = Some f →
   valid s u → ovalid s v → ovalid s w → arity_ok op v w = true →
   heldn L (absn u) → oref L v → oref L w →
@@ -1003,7 +1012,7 @@ Theorem apply_dynamic s L op u v w r s' f :
        valid s' x ∧
        ∀ ρ, denv s' x ρ = f (denv s u ρ) (odenv s v ρ) (odenv s w ρ).
 Proof.
-  intros Hs HI HC Hc Hop Hf Hu Hv Hw Har Ku Kv Kw Hrun.
+  intros Hs HI HC Hc Hmx Hop Hf Hu Hv Hw Har Ku Kv Kw Hrun.
   pose proof alias_table_ok as Htab. rewrite forallb_forall in Htab.
   apply elem_of_list_In in Hop. specialize (Htab op Hop). apply elem_of_list_In in Hop.
   apply orb_true_iff in Htab as [Hq|Hok].
@@ -1034,7 +1043,7 @@ Proof.
   assert (Hnq : ∀ fa a b, t ≠ TQuant fa a b).
   { intros fa a b ->. by specialize (Hsem' true true true). }
   destruct (apply_with_dynamic py_apply_table op u v w s L t r s'
-              Hs HI HC Hc Hu Hv Hw Ku Kv Kw Har' Ht Hav Hnq Hrun)
+              Hs HI HC Hc Hmx Hu Hv Hw Ku Kv Kw Har' Ht Hav Hnq Hrun)
     as [->|(x&->&?&?&?&?&?&?&?&HD)]; [by left|right].
   exists x. do 8 (split; [done|]).
   intros ρ. specialize (HD ρ). rewrite Hsem' in HD. injection HD as ->.
@@ -1118,7 +1127,7 @@ Proof.
     by (vm_compute; split; reflexivity).
   destruct (reorder None rx_st) as [r s'] eqn:E. cbn [fst snd] in Hout.
   destruct Hout as [-> Hgone].
-  destruct (H rx_st L (Ok tt) s' HI HC Hll E) as [[=]|(_&_&_&_&_&_&Hk)].
+  destruct (H rx_st L (Ok tt) s' HI HC Hll E) as [[=]|(_&_&_&_&_&_&_&Hk)].
   destruct (Hk 6%Z ltac:(done) (or_intror Hreach) Hv6) as [[_ [t Ht]] _].
   change (absn 6) with 6%positive in Ht. congruence.
 Qed.
